@@ -169,6 +169,8 @@ struct Cfg {
     asref_map: HashMap<String, String>, // "Path" -> "&Path"
     opaque_fmt_in: HashSet<String>,     // method names whose closure args get opaque format!
     world_ty: String,
+    /// vacuity probe run: every verified unit body starts with `assert(false)`, which must FAIL
+    vacuity_probe: bool,
 }
 
 fn jstr(v: &Value, k: &str) -> String {
@@ -1562,6 +1564,9 @@ fn process_fn(
             if mut_self {
                 bv.fc.edit_ord(open, open, " let mut this = self;", "R6.mutself", 1);
             }
+            if bv.fc.cfg.vacuity_probe {
+                bv.fc.edit_ord(open, open, "\nproof { assert(false); } // @VACUITY\n", "W.vacuity_probe", 3);
+            }
             if !u.body_open.is_empty() {
                 bv.fc.edit_ord(open, open, format!("\n{}\n", u.body_open), "W.body_open", 2);
             }
@@ -1842,6 +1847,7 @@ fn main() {
         asref_map: getmap("asref_map"),
         opaque_fmt_in: cfgv["opaque_fmt_in"].as_array().map(|a| a.iter().map(|x| x.as_str().unwrap().to_string()).collect()).unwrap_or_default(),
         world_ty: cfgv.get("world_ty").and_then(|x| x.as_str()).unwrap_or("crate::shims::World").to_string(),
+        vacuity_probe: cfgv.get("vacuity_probe").and_then(|x| x.as_bool()).unwrap_or(false),
     };
     let mut out_files = Map::new();
     let mut all_errors: Vec<String> = vec![];
@@ -2063,6 +2069,8 @@ fn main() {
         let mut found_units: HashSet<String> = HashSet::new();
         let mut found_items: HashSet<String> = HashSet::new();
         let mut dropped: Vec<String> = vec![];
+        // items that exist but are compiled out in this flavour
+        let mut cfg_off_items: HashSet<String> = HashSet::new();
 
         for item in &file.items {
             let (attrs, name): (&[Attribute], String) = match item {
@@ -2081,7 +2089,10 @@ fn main() {
             };
             match cfg.env.attrs_on(attrs) {
                 Ok(true) => {}
-                Ok(false) => continue,
+                Ok(false) => {
+                    cfg_off_items.insert(name.clone());
+                    continue;
+                }
                 Err(e) => {
                     fc.errors.push(format!("cfg on {name}: {e}"));
                     continue;
@@ -2383,7 +2394,7 @@ fn main() {
             }
         }
         for k in &keep_items {
-            if !found_items.contains(k) {
+            if !found_items.contains(k) && !cfg_off_items.contains(k) {
                 fc.errors.push(format!("{fname}: item `{k}` not found (anchor lost)"));
             }
         }
